@@ -138,3 +138,27 @@ Proof.
          (parse_inline_one_line cfg rf cf lt s H13 H0 Hc env)).
 Qed.
 Print Assumptions C18_item_is_parse_inline.
+
+From MD Require Import Lemmas.NestLine.
+(* every nesting of block quotes and list items: the inline token has content s and the children of parseInline(s) *)
+Theorem C18_any_containers_is_parse_inline :
+  forall cfg rf cf lt s, line_ok s -> mem_z 13 s = false -> mem_z 0 s = false ->
+  forall RA RB RC RD, c_rules (p_block cfg) = RA ++ nm_blockquote :: RB ++ nm_list :: RC ++ nm_paragraph :: RD ->
+    Forall (fun n => n = nm_table \/ n = nm_code \/ n = nm_fence) RA ->
+    Forall (fun n => n = nm_table \/ n = nm_code \/ n = nm_fence \/ n = nm_hr) RB ->
+    Forall (fun n => str_eqb n nm_paragraph = false) RC ->
+    p_core cfg = [n_normalize; n_block; n_inline; n_text_join] ->
+  forall cs, weight cs < c_maxNesting (p_block cfg) ->
+  forall env,
+    parse cfg rf cf lt (prefix cs ++ s ++ [10]) env
+    = (do toks <- inline_parse (p_inline cfg) rf cf lt s env [];
+       Ok (wrapc s cs 0 false (join_children toks), env))
+    /\ parse_inline cfg rf cf lt s env
+       = (do toks <- inline_parse (p_inline cfg) rf cf lt s env [];
+          Ok ([set_children (i_inl s) (Some (join_children toks))], env)).
+Proof.
+  exact (fun cfg rf cf lt s Hs H13 H0 RA RB RC RD HC HA HB HCn Hc cs Hw env =>
+    conj (parse_nested cfg rf cf lt s Hs H13 H0 RA RB RC RD HC HA HB HCn Hc cs Hw env)
+         (parse_inline_one_line cfg rf cf lt s H13 H0 Hc env)).
+Qed.
+Print Assumptions C18_any_containers_is_parse_inline.
